@@ -14,6 +14,11 @@ CONSTANTS
   FeesSet = {0, 2}
   TuPoints = {0, 3, 10}
   NodeCount = 3
+  EcoInfls = {}
+  EcoBlocks = {}
+  EcoAccs = {}
+  EcoDevs = {}
+  EcoPcts = {}
 VIEW cvars
 INVARIANTS Inv_C35_NoClauseViolated Inv_C35_DustNonNegative Inv_C35_StagesBounded
 CHECK_DEADLOCK FALSE
